@@ -81,14 +81,17 @@ def make_ws(ps, uses, rng, casing=None, classless=False):
         body = ["var v1 : %s" % tgt, "var v2 : tNoSuchType", "v1.Fld", "self.Fld", "Helper(v2)", "%s.Fld" % tgt]
         if par:
             body.append("%s.Foo" % par)
+        # a top-level field of a type declared nowhere: its resolution falls through to the used entities while the
+        # class-level table is being filled (locals of unknown types only exercise the method-level path)
+        extra = ["Unk%d : tNoSuchType%d" % (i, i)] if rng.random() < 0.75 else []
         files.append(FileD(CLS[i], CLS[i], par, uses=us,
                            members=[("Fld", "v", False), ("Foo", "p", ps[i] is not None), ("Own%d" % i, "p", False)],
-                           body=body))
+                           body=body, extra=extra))
     if classless:
         k = n
         us = [ents[j] for j in uses[k]] if k < len(uses) else [CLS[0]]
         files.append(FileD("aZz", None, None, uses=us, members=[("Lone", "p", False)],
-                           body=["var q : %s" % CLS[0], "q.Fld", "Nothing(q)"]))
+                           body=["var q : %s" % CLS[0], "q.Fld", "Nothing(q)"], extra=["UnkZ : tNoSuchTypeZ"]))
     return files
 
 
